@@ -20,8 +20,8 @@ import (
 
 type c15Case struct {
 	Gen     string `json:"gen"`
-	Dir     string `json:"dir"`   // A: library encoder -> image/jpeg ; B: independent encoder -> library decoders
-	Codec   string `json:"codec"` // A: baseline|extended (encoder) ; B: baseline|extended (decoder)
+	Dir     string `json:"dir"`           // A: library encoder -> image/jpeg ; B: independent encoder -> library decoders
+	Codec   string `json:"codec"`         // A: baseline|extended (encoder) ; B: baseline|extended (decoder)
 	Src     string `json:"src,omitempty"` // B: stdlib | ref
 	W       int    `json:"w"`
 	H       int    `json:"h"`
